@@ -146,15 +146,26 @@ def _setup(cfg):
     return patches, evs, unrep
 
 
+class _Failed:
+    """a history on which a join call itself raised (the exception is the observation)"""
+    def __init__(self, at, exc):
+        self.at, self.exc = at, exc
+
+
 def _build(history):
     mp = _G["assemble"].Multipatch(_G["py"], automatch=False)
-    for e in history:
+    for k, e in enumerate(history):
         p1, bd1, p2, bd2, flip = _G["events"][e]
-        mp.join_boundaries(p1, bd1, p2, bd2, flip)
+        try:
+            mp.join_boundaries(p1, bd1, p2, bd2, flip)
+        except Exception as exc:        # a legal join call must not raise
+            return _Failed(k, exc)
     return mp
 
 
 def _enabled(mp):
+    if isinstance(mp, _Failed):
+        return []
     return list(range(len(_G["events"])))
 
 
@@ -163,6 +174,8 @@ def _step(mp, ev, history):
 
 
 def _canon(mp):
+    if isinstance(mp, _Failed):
+        return ("failed", mp.at, type(mp.exc).__name__)
     cls = [tuple(sorted(s)) for s in mp.shared_dofs]
     order = sorted(range(len(cls)), key=lambda i: (cls[i] == (), cls[i]))
     ren = {old: new for new, old in enumerate(order)}
@@ -175,6 +188,8 @@ def glue_problems(mp, history):
     """compare the finalized real structure with the union-find closure of the joins in `history`"""
     patches, ndofs = _G["patches"], _G["ndofs"]
     probs = []
+    if isinstance(mp, _Failed):
+        return [("exception:%s" % type(mp.exc).__name__, "join_boundaries call %d of the history raised %r" % (mp.at, mp.exc))]
     try:
         mp.finalize()
         nd = int(mp.numdofs)
